@@ -176,8 +176,13 @@ def _udp(exe, r, run, stats, w, sim, wit):
                                                      osc["client_id"], osc["idctx"],
                                                      r.random() < 0.3))
     sim.cmd("ep 1 udp %s" % SRV)
-    sim.cmd("res 1 %s body=fixed:%s" % (b"r".hex(), BODY.hex()))
-    sim.cmd("res 1 %s body=gen:%d:7 large=1" % (b"big".hex(), r.choice([700, 1500, 4000])))
+    # (attributes with several values: discovery requests with rt=/if= filters walk them)
+    sim.cmd("res 1 %s body=fixed:%s attr=%s:%s,%s:%s" % (
+        b"r".hex(), BODY.hex(), b"rt".hex(), b'"temp sensor lux"'.hex(), b"if".hex(),
+        r.choice([b'"core.s a"', b"a", b'""', b'"a  b "']).hex()))
+    sim.cmd("res 1 %s body=gen:%d:7 large=1 attr=%s:%s" % (
+        b"big".hex(), r.choice([700, 1500, 4000]), b"rt".hex(),
+        r.choice([b'"t sensor"', b"lux", b'"x y z lux"']).hex()))
     sim.cmd("res 1 %s store=1 body=stored" % b"up".hex())
     sim.cmd("res 1 %s body=counter obs=1" % b"o".hex())
     sim.cmd("res 1 %s body=fixed:%s sep=500" % (b"sep".hex(), b"later".hex()))
@@ -204,6 +209,12 @@ def _udp(exe, r, run, stats, w, sim, wit):
         "send 0 0 type=0 code=5 token=b6 opts=11=%s,12=2a large=%d:5" % (b"up".hex(),
                                                                       r.choice([300, 2000])),
     ]
+    for _ in range(r.choice([1, 2, 3])):
+        filt = r.choice([b"rt", b"if", b"rel", b"href", b"title"]) + b"=" + \
+            r.choice([b"sensor", b"lux", b"temp", b"se*", b"l*", b"zz", b"a", b"core.s", b"*",
+                      b"", b"sensorsensor", b"lu", b"/r", b"/b*", b"temp sensor"])
+        valid.append("send 0 0 type=0 code=1 token=%02x opts=11=%s,11=%s,15=%s" % (
+            0xd0 + len(valid), b".well-known".hex(), b"core".hex(), filt.hex()))
     if osc:
         # one OSCORE request per run: a second one before the first response makes libcoap
         # wait inside coap_send (coap_client_delay_first), which never returns under the
